@@ -361,3 +361,152 @@ Example neg_wildcard_hypotheses_satisfiable :
   step [(4, [CNum 1; CNum 2])] [] (PNeg (mkAtom 4 [TVar 1; TVar 1001])) [(1, CNum 1)] = Some [] /\
   step [(4, [CNum 1; CNum 2])] [] (PNeg (mkAtom 4 [TVar 1; TVar 1001])) [(1, CNum 3)] = Some [[(1, CNum 3)]].
 Proof. repeat split; vm_compute; reflexivity. Qed.
+
+(* ================= the static version of (a) (Datalog/SolveUFStaticProofs.v). no_alias_body B body
+   is a syntactic test: every premise "X = Y" between two variables has X = Y literally, or a
+   side in B' = the variables certainly bound at that point (binds_after: B, the variables
+   standing as whole arguments of an earlier positive atom, a variable equated earlier with
+   a term that is not a variable, or with a variable that was certainly bound). On such a
+   body no equality is evaluated with both sides unbound, and the two evaluators have the
+   SAME outcome: the same solutions, or both report an error. *)
+From MV Require Import Datalog.SolveUFStaticProofs.
+
+Theorem solve_uf_static_agree :
+  forall (Sneg : list fact) (sel : nat -> list fact) (body : list premise) (B : list Z) (k : nat) (sols : list subst),
+    no_alias_body B body = true ->
+    Forall (fun s => NoDup (map fst s)) sols ->
+    Forall (fun s => forall v, In v B -> lookup v s <> None) sols ->
+    solve_uf false Sneg sel k body (map (map (fun vc => (fst vc, VConst (snd vc)))) sols)
+    = option_map (map (map (fun vc => (fst vc, VConst (snd vc))))) (solve Sneg sel k body sols).
+Proof. exact solve_uf_static. Qed.
+Print Assumptions solve_uf_static_agree.
+
+(* the direction that conservativity lacks: Solve.v errs only where the Go-shaped evaluator errs *)
+Theorem solve_errs_only_where_uf_errs :
+  forall (Sneg : list fact) (sel : nat -> list fact) (body : list premise) (B : list Z) (k : nat) (sols : list subst),
+    no_alias_body B body = true ->
+    Forall (fun s => NoDup (map fst s)) sols ->
+    Forall (fun s => forall v, In v B -> lookup v s <> None) sols ->
+    solve Sneg sel k body sols = None ->
+    solve_uf false Sneg sel k body (map (map (fun vc => (fst vc, VConst (snd vc)))) sols) = None.
+Proof. exact solve_none_uf_none. Qed.
+Print Assumptions solve_errs_only_where_uf_errs.
+
+Theorem eval_clause_uf_static_agree :
+  forall (Sneg : list fact) (sel : nat -> list fact) (c : clause),
+    no_alias_body [] (cbody c) = true ->
+    eval_clause_uf false Sneg sel c = eval_clause Sneg sel c.
+Proof. exact eval_clause_uf_static. Qed.
+Print Assumptions eval_clause_uf_static_agree.
+
+(* programs all of whose clauses pass the test: same outcome of the whole evaluation -
+   Ok with the same store, EvalError, or OutOfFuel *)
+Theorem eval_program_uf_static_agree :
+  forall (fuel : nat) (P : list clause) (layers : list (list Z)) (store init : list fact),
+    forallb (fun c => no_alias_body [] (cbody c)) P = true ->
+    eval_program_uf false fuel P layers store init = eval_program fuel P layers store init.
+Proof. exact eval_program_uf_static. Qed.
+Print Assumptions eval_program_uf_static_agree.
+
+(* strata_exact for the union-find model with no hypothesis about a run of the old model *)
+Theorem strata_exact_uf_static :
+  forall (fuel : nat) (P : list clause) (layers : list (list Z)) (store init Res : list fact),
+    valid_stratification P layers ->
+    forallb (fun c => no_alias_body [] (cbody c)) P = true ->
+    eval_program_uf false fuel P layers store init = Ok Res ->
+    forall f, In f Res <-> slfp P layers (fun g => In g (add_all store init)) f.
+Proof. exact eval_program_uf_exact_static. Qed.
+Print Assumptions strata_exact_uf_static.
+
+(* non-vacuity: n_prog with a bound alias,  s(X) :- d(X), Y = X, !t(Y).  The clause passes the
+   test (X is an argument of d), the union-find run finishes; the C01-3 witness a_clause
+   (V4 = V2 in front of the atom that binds V2) does not pass, its alias-free form does *)
+Definition st_prog : list clause :=
+  [ mkClause (mkAtom 12 [w_X]) [PAtom (mkAtom 10 [w_X])] [];
+    mkClause (mkAtom 13 [w_X]) [PAtom (mkAtom 11 [w_X]); PEq w_Y w_X; PNeg (mkAtom 12 [w_Y])] [] ].
+
+Example static_hypotheses_satisfiable :
+  valid_stratification st_prog n_layers /\
+  forallb (fun c => no_alias_body [] (cbody c)) st_prog = true /\
+  eval_program_uf false 10 st_prog n_layers [(10, [CNum 1])] [(11, [CNum 1]); (11, [CNum 2])]
+  = Ok [ (10, [CNum 1]); (11, [CNum 1]); (11, [CNum 2]); (12, [CNum 1]); (13, [CNum 2]) ] /\
+  no_alias_body [] (cbody a_clause) = false /\
+  no_alias_body [] (cbody (sub_clause 4 2 a_clause)) = true.
+Proof.
+  split; [|repeat split; vm_compute; reflexivity]. split.
+  - vm_compute. repeat constructor; simpl; intuition discriminate.
+  - intros c [<-|[<-|[]]].
+    + exists 0%nat. vm_compute. repeat split; intros q Hq; repeat (destruct Hq as [<-|Hq]; [auto with arith|]); try destruct Hq.
+    + exists 1%nat. vm_compute. repeat split; intros q Hq; repeat (destruct Hq as [<-|Hq]; [auto with arith|]); try destruct Hq.
+Qed.
+
+(* ---- the end of the alias-elimination story. A premise V = V is a no-op of the union-find
+   evaluator wherever it stands (both sides evaluate to the root of V's class; strict or
+   not), so it can be removed; the premises behind it move one position to the front and
+   read the stores of their old positions (sel_skip n sel j = sel j for j < n, sel (j+1)
+   otherwise - for the delta rules: the delta position moves with its atom). *)
+Theorem eq_refl_premise_removable :
+  forall (strict : bool) (Sneg : list fact) (sel : nat -> list fact) (h : atom) (b1 b2 : list premise)
+         (lets : list (Z * term)) (v : Z),
+    eval_clause_uf strict Sneg sel (mkClause h (b1 ++ PEq (TVar v) (TVar v) :: b2) lets) =
+    eval_clause_uf strict Sneg (fun j => if (j <? length b1)%nat then sel j else sel (S j)) (mkClause h (b1 ++ b2) lets).
+Proof. exact eval_clause_uf_eq_refl_removable. Qed.
+Print Assumptions eq_refl_premise_removable.
+
+(* alias_elimination_sound with the leftover equality removed: the clause with the aliasing
+   equality e (W = V or V = W) at body position |b1| derives the same facts as the clause
+   without e in which W is replaced by V everywhere *)
+Theorem alias_elimination_removed_sound :
+  forall (Sneg : list fact) (sel : nat -> list fact) (h : atom) (b1 b2 : list premise) (lets : list (Z * term))
+         (e : premise) (W V : Z) (fs' fs : list fact),
+    W <> V -> e = PEq (TVar W) (TVar V) \/ e = PEq (TVar V) (TVar W) ->
+    (forall v, In v (bvars (b1 ++ e :: b2)) -> ~ In v (map fst lets)) ->
+    eval_clause_uf true Sneg sel (mkClause h (b1 ++ e :: b2) lets) = Some fs' ->
+    eval_clause_uf true Sneg (fun j => if (j <? length b1)%nat then sel j else sel (S j))
+                   (sub_clause W V (mkClause h (b1 ++ b2) lets)) = Some fs ->
+    forall f, In f fs' <-> In f fs.
+Proof. exact alias_elimination_removed. Qed.
+Print Assumptions alias_elimination_removed_sound.
+
+(* a_clause = (b1 = []) ++ (V4 = V2) :: [p0(V1,V2)]: the hypotheses are satisfiable, and the clause
+   without the premise, p1(V1,V3) :- p0(V1,V2) |> let V3 = fn:minus(V2,1), derives the two facts *)
+Example alias_removed_hypotheses_satisfiable :
+  a_clause = mkClause (chead a_clause) ([] ++ PEq (TVar 4) (TVar 2) :: [PAtom (mkAtom 0 [TVar 1; TVar 2])]) (clet a_clause) /\
+  eval_clause_uf true a_store (fun j => if (j <? length (@nil premise))%nat then a_store else a_store)
+                 (sub_clause 4 2 (mkClause (chead a_clause) ([] ++ [PAtom (mkAtom 0 [TVar 1; TVar 2])]) (clet a_clause)))
+  = Some [(1, [CNum 7; CNum 9]); (1, [CNum 8; CNum 19])] /\
+  eval_clause_uf true a_store (fun _ => a_store) (mkClause (mkAtom 1 [TVar 1]) [PAtom (mkAtom 0 [TVar 1; TVar 2]); PEq (TVar 5) (TVar 5)] [])
+  = eval_clause_uf true a_store (fun _ => a_store) (mkClause (mkAtom 1 [TVar 1]) [PAtom (mkAtom 0 [TVar 1; TVar 2])] []).
+Proof. repeat split; vm_compute; reflexivity. Qed.
+
+(* ---- the test is implied by C04's: a clause that CheckRule accepts (Analysis/RuleCheck.check,
+   the model of analysis.CheckRule) and that is alias_free there (every variable = variable
+   equality has a side CheckRule counts as bound at that point) passes the test after
+   ReplaceWildcards - the form in which the engine model evaluates it. So strata_exact holds
+   for the union-find model on every program of checked, alias_free clauses. *)
+From MV Require Analysis.RuleCheck.
+
+Theorem checked_alias_free_is_static :
+  forall cr : clause,
+    RuleCheck.check cr = true -> RuleCheck.alias_free cr = true ->
+    no_alias_body [] (cbody (RuleCheck.replace_wildcards cr)) = true.
+Proof. exact checked_alias_free_static. Qed.
+Print Assumptions checked_alias_free_is_static.
+
+Theorem strata_exact_uf_checked :
+  forall (fuel : nat) (Pr : list clause) (layers : list (list Z)) (store init Res : list fact),
+    (forall cr, In cr Pr -> RuleCheck.check cr = true /\ RuleCheck.alias_free cr = true) ->
+    valid_stratification (map RuleCheck.replace_wildcards Pr) layers ->
+    eval_program_uf false fuel (map RuleCheck.replace_wildcards Pr) layers store init = Ok Res ->
+    forall f, In f Res <-> slfp (map RuleCheck.replace_wildcards Pr) layers (fun g => In g (add_all store init)) f.
+Proof. exact eval_program_uf_exact_checked. Qed.
+Print Assumptions strata_exact_uf_checked.
+
+(* st_prog is such a program (it has no wildcard: ReplaceWildcards leaves it as it is) *)
+Example checked_hypotheses_satisfiable :
+  (forall cr, In cr st_prog -> RuleCheck.check cr = true /\ RuleCheck.alias_free cr = true) /\
+  map RuleCheck.replace_wildcards st_prog = st_prog.
+Proof.
+  split; [|vm_compute; reflexivity].
+  intros cr [<-|[<-|[]]]; split; vm_compute; reflexivity.
+Qed.
